@@ -90,17 +90,17 @@ impl Proxy {
         let mut answer = self.raw(op, timeout);
         if answer.is_none() {
             // confirmation: on a loaded machine the child can be starved for seconds.  The child is replaced,
-            // the session restored, and the operation repeated with ten times the time: a call that really
+            // the session restored, and the operation repeated with three times the (already generous) time: a call that really
             // never returns survives that too
             self.restart();
             let mut ready = true;
             if !is_session {
                 if let Some(s) = self.last_session.clone() {
-                    ready = self.raw(&s, self.base_timeout * 10 + Duration::from_secs(40)).is_some();
+                    ready = self.raw(&s, self.base_timeout * 3 + Duration::from_secs(40)).is_some();
                 }
             }
             if ready {
-                answer = self.raw(op, timeout * 10);
+                answer = self.raw(op, timeout * 3);
             }
         }
         match answer {
